@@ -23,6 +23,7 @@ use std::path::PathBuf;
 static GLOBAL: alloc::Counting = alloc::Counting;
 
 fn main() {
+    cli::detach_from_terminal();
     let args: Vec<String> = std::env::args().collect();
     if args.len() < 2 { eprintln!("usage: kverif <ID> [--tier quick|thorough] [--seed N] [--replay FILE] [--root DIR]"); std::process::exit(2); }
     let id = args[1].clone();
